@@ -562,42 +562,45 @@ theorem rootLoop_depth0 (hf : HashFn α H) (s : Segment α H) (bm : Option (Nat 
 
 /-! ### `Segment::root` and `Segment::validate` -/
 
-/-- the peaks inside the segment's range, right to left (what the bagging loop walks) -/
-def peaksIn (id : Ident) (size : Nat) : List Nat :=
-  ((peaks size).filter fun p => (id.posRange size).1 ≤ p && p ≤ (id.posRange size).2).reverse
-
 /-- the range of the identifier is a well-formed post-order range: the loop of `root` leaves
 exactly the entries the end of `root` consumes (one for a full segment, one per peak otherwise).
 A fact about `(id, size)` only; proven for full segments in `Lemmas/SegTree.lean`. -/
 def WellFormedRange (id : Ident) (size : Nat) : Prop :=
   depthLoop 0 (id.positions size) =
-    some (if id.full size then 1 else (peaksIn id size).length)
+    some (if id.full size then 1 else (id.peaksIn size).length)
 
 /-- what the end of `Segment::root` reads of the segment -/
-def finishReads (s : Segment α H) (bm : Option (Nat → Bool)) (size : Nat) (stk : List (Option H)) :
-    List (Ev α H) :=
-  if s.id.full size then [] else peakReads s bm stk (peaksIn s.id size)
+def finishReads (s : Segment α H) (bm : Option (Nat → Bool)) (full : Bool) (pks : List Nat)
+    (stk : List (Option H)) : List (Ev α H) :=
+  if full then [] else peakReads s bm stk pks
 
-/-- everything `Segment::root` reads of the segment -/
-def segReads (hf : HashFn α H) (s : Segment α H) (size : Nat) (bm : Option (Nat → Bool)) :
-    List (Ev α H) :=
-  rootReads hf s bm size ([], s.leafPos.zip s.leafData) (s.id.positions size) ++
-  match rootLoop hf s bm size ([], s.leafPos.zip s.leafData) (s.id.positions size) with
-  | .ok st => finishReads s bm size st.1
+/-- everything `rootWith` reads of the segment -/
+def readsWith (hf : HashFn α H) (s : Segment α H) (size : Nat) (bm : Option (Nat → Bool))
+    (ps : List Nat) (full : Bool) (pks : List Nat) : List (Ev α H) :=
+  rootReads hf s bm size ([], s.leafPos.zip s.leafData) ps ++
+  match rootLoop hf s bm size ([], s.leafPos.zip s.leafData) ps with
+  | .ok st => finishReads s bm full pks st.1
   | _ => []
 
-theorem rootFinish_inj (hf : HashFn α H) (inj : Inj hf) (s1 s2 : Segment α H) (hid : s1.id = s2.id)
-    (size : Nat) (bm : Option (Nat → Bool)) (stk1 stk2 : List (Option H)) (o1 o2 : Option H)
+/-- everything `Segment::root` reads of the segment: leaf data with its position, hashes looked
+up through `get_hash` with their position -/
+def segReads (hf : HashFn α H) (s : Segment α H) (size : Nat) (bm : Option (Nat → Bool)) :
+    List (Ev α H) :=
+  readsWith hf s size bm (s.id.positions size) (s.id.full size) (s.id.peaksIn size)
+
+theorem rootFinish_inj (hf : HashFn α H) (inj : Inj hf) (s1 s2 : Segment α H)
+    (size : Nat) (bm : Option (Nat → Bool)) (full : Bool) (pks : List Nat)
+    (stk1 stk2 : List (Option H)) (o1 o2 : Option H)
     (hs : shape stk1 = shape stk2)
-    (hl1 : stk1.length = if s1.id.full size then 1 else (peaksIn s1.id size).length)
-    (hl2 : stk2.length = if s1.id.full size then 1 else (peaksIn s1.id size).length)
-    (h1 : rootFinish hf s1 bm size stk1 = .ok o1) (h2 : rootFinish hf s2 bm size stk2 = .ok o2) :
+    (hl1 : stk1.length = if full then 1 else pks.length)
+    (hl2 : stk2.length = if full then 1 else pks.length)
+    (h1 : rootFinish hf s1 bm size full pks stk1 = .ok o1)
+    (h2 : rootFinish hf s2 bm size full pks stk2 = .ok o2) :
     o1.isSome = o2.isSome ∧
-    (o1 = o2 → stk1 = stk2 ∧ finishReads s1 bm size stk1 = finishReads s2 bm size stk2) := by
+    (o1 = o2 → stk1 = stk2 ∧ finishReads s1 bm full pks stk1 = finishReads s2 bm full pks stk2) := by
   unfold rootFinish at h1 h2
   unfold finishReads
-  rw [← hid] at h2 ⊢
-  by_cases hfull : s1.id.full size = true
+  by_cases hfull : full = true
   · simp only [hfull, if_true] at h1 h2 hl1 hl2 ⊢
     match stk1, stk2, hl1, hl2 with
     | [v1], [v2], _, _ =>
@@ -608,14 +611,11 @@ theorem rootFinish_inj (hf : HashFn α H) (inj : Inj hf) (s1 s2 : Segment α H) 
       subst he
       exact ⟨rfl, trivial⟩
   · simp only [hfull, Bool.false_eq_true, if_false] at h1 h2 hl1 hl2 ⊢
-    have hpk : ((peaks size).filter fun p =>
-        (s1.id.posRange size).1 ≤ p && p ≤ (s1.id.posRange size).2).reverse = peaksIn s1.id size := rfl
-    rw [hpk] at h1 h2
-    cases hb1 : bagPeaks hf s1 bm size stk1 none (peaksIn s1.id size) with
+    cases hb1 : bagPeaks hf s1 bm size stk1 none pks with
     | err e => simp only [hb1] at h1; cases h1
     | panic => simp only [hb1] at h1; cases h1
     | ok w1 =>
-      cases hb2 : bagPeaks hf s2 bm size stk2 none (peaksIn s1.id size) with
+      cases hb2 : bagPeaks hf s2 bm size stk2 none pks with
       | err e => simp only [hb2] at h2; cases h2
       | panic => simp only [hb2] at h2; cases h2
       | ok w2 =>
@@ -632,25 +632,27 @@ theorem rootFinish_inj (hf : HashFn α H) (inj : Inj hf) (s1 s2 : Segment α H) 
             refine ⟨rfl, ?_⟩
             intro he
             obtain ⟨_, htake, hpr⟩ := hbk he
-            have t1 : List.take (peaksIn s1.id size).length stk1 = stk1 := by
+            have t1 : List.take pks.length stk1 = stk1 := by
               rw [← hl1]; exact List.take_length
-            have t2 : List.take (peaksIn s1.id size).length stk2 = stk2 := by
+            have t2 : List.take pks.length stk2 = stk2 := by
               rw [← hl2]; exact List.take_length
             rw [t1, t2] at htake
             exact ⟨htake, hpr⟩
 
-theorem root_inj (hf : HashFn α H) (inj : Inj hf) (s1 s2 : Segment α H) (hid : s1.id = s2.id)
-    (size : Nat) (bm : Option (Nat → Bool)) (wf : WellFormedRange s1.id size) (o1 o2 : Option H)
-    (h1 : s1.root hf size bm = .ok o1) (h2 : s2.root hf size bm = .ok o2) :
-    o1.isSome = o2.isSome ∧ (o1 = o2 → segReads hf s1 size bm = segReads hf s2 size bm) := by
-  unfold Segment.root at h1 h2
-  unfold segReads
-  rw [← hid] at h2 ⊢
-  cases hl1 : rootLoop hf s1 bm size ([], s1.leafPos.zip s1.leafData) (s1.id.positions size) with
+theorem rootWith_inj (hf : HashFn α H) (inj : Inj hf) (s1 s2 : Segment α H)
+    (size : Nat) (bm : Option (Nat → Bool)) (ps : List Nat) (full : Bool) (pks : List Nat)
+    (wf : depthLoop 0 ps = some (if full then 1 else pks.length)) (o1 o2 : Option H)
+    (h1 : rootWith hf s1 size bm ps full pks = .ok o1)
+    (h2 : rootWith hf s2 size bm ps full pks = .ok o2) :
+    o1.isSome = o2.isSome ∧
+    (o1 = o2 → readsWith hf s1 size bm ps full pks = readsWith hf s2 size bm ps full pks) := by
+  unfold rootWith at h1 h2
+  unfold readsWith
+  cases hl1 : rootLoop hf s1 bm size ([], s1.leafPos.zip s1.leafData) ps with
   | err e => simp only [hl1] at h1; cases h1
   | panic => simp only [hl1] at h1; cases h1
   | ok f1 =>
-    cases hl2 : rootLoop hf s2 bm size ([], s2.leafPos.zip s2.leafData) (s1.id.positions size) with
+    cases hl2 : rootLoop hf s2 bm size ([], s2.leafPos.zip s2.leafData) ps with
     | err e => simp only [hl2] at h2; cases h2
     | panic => simp only [hl2] at h2; cases h2
     | ok f2 =>
@@ -659,15 +661,336 @@ theorem root_inj (hf : HashFn α H) (inj : Inj hf) (s1 s2 : Segment α H) (hid :
       obtain ⟨hsh, hback⟩ := rootLoop_inj hf inj s1 s2 bm size _ _ _ _ _ hl1 hl2 rfl
       have d1' := rootLoop_depth0 hf s1 bm size _ _ _ hl1
       have d2' := rootLoop_depth0 hf s2 bm size _ _ _ hl2
-      unfold WellFormedRange at wf
       rw [wf] at d1' d2'
       simp only [Option.some.injEq] at d1' d2'
-      obtain ⟨hv, hfin⟩ := rootFinish_inj hf inj s1 s2 hid size bm f1.1 f2.1 o1 o2 hsh d1'.symm d2'.symm h1 h2
+      obtain ⟨hv, hfin⟩ := rootFinish_inj hf inj s1 s2 size bm full pks f1.1 f2.1 o1 o2 hsh
+        d1'.symm d2'.symm h1 h2
       refine ⟨hv, ?_⟩
       intro he
       obtain ⟨hstk, hfr⟩ := hfin he
       have := (hback hstk).2
       rw [this, hfr]
 
+/-- **`Segment::root` is injective in what it reads**: two segments with the same identifier
+whose roots are equal agree on every leaf and every hash the computation read. -/
+theorem root_inj (hf : HashFn α H) (inj : Inj hf) (s1 s2 : Segment α H) (hid : s1.id = s2.id)
+    (size : Nat) (bm : Option (Nat → Bool)) (wf : WellFormedRange s1.id size) (o1 o2 : Option H)
+    (h1 : s1.root hf size bm = .ok o1) (h2 : s2.root hf size bm = .ok o2) :
+    o1.isSome = o2.isSome ∧ (o1 = o2 → segReads hf s1 size bm = segReads hf s2 size bm) := by
+  unfold Segment.root at h1 h2
+  unfold segReads
+  rw [← hid] at h2 ⊢
+  exact rootWith_inj hf inj s1 s2 size bm _ _ _ wf o1 o2 h1 h2
+
+/-! ### `Segment::validate` / `validate_with` -/
+
+theorem proofValidate_ok (hf : HashFn α H) [DecidableEq H] (proof : List H) (lastPos : Nat) (mmrRoot : H)
+    (first0 last0 : Nat) (segRoot : H) (upos : Nat)
+    (h : proofValidate hf proof lastPos mmrRoot first0 last0 segRoot upos = .ok ()) :
+    ∃ rest, reconstructRoot hf proof lastPos first0 last0 segRoot upos = .ok (mmrRoot, rest) := by
+  unfold proofValidate at h
+  cases hr : reconstructRoot hf proof lastPos first0 last0 segRoot upos with
+  | err e => simp only [hr] at h; cases h
+  | panic => simp only [hr] at h; cases h
+  | ok x =>
+    obtain ⟨r, rest⟩ := x
+    simp only [hr] at h
+    by_cases he : r = mmrRoot
+    · subst he; exact ⟨rest, rfl⟩
+    · simp only [he, if_false] at h; cases h
+
+theorem proofValidateWith_ok (hf : HashFn α H) [DecidableEq H] (proof : List H) (lastPos : Nat)
+    (mmrRoot : H) (first0 last0 : Nat) (segRoot : H) (upos hlp : Nat) (other : H) (left : Bool)
+    (h : proofValidateWith hf proof lastPos mmrRoot first0 last0 segRoot upos hlp other left = .ok ()) :
+    ∃ r rest, reconstructRoot hf proof lastPos first0 last0 segRoot upos = .ok (r, rest) ∧
+      (if left then hf.node hlp other r else hf.node hlp r other) = mmrRoot := by
+  unfold proofValidateWith at h
+  cases hr : reconstructRoot hf proof lastPos first0 last0 segRoot upos with
+  | err e => simp only [hr] at h; cases h
+  | panic => simp only [hr] at h; cases h
+  | ok x =>
+    obtain ⟨r, rest⟩ := x
+    simp only [hr] at h
+    by_cases he : (if left = true then hf.node hlp other r else hf.node hlp r other) = mmrRoot
+    · exact ⟨r, rest, rfl, he⟩
+    · simp only [he, if_false] at h; cases h
+
+/-- the proof part: same range, same unpruned position, both accepted ⇒ same segment root and
+same consumed proof hashes -/
+theorem validateAt_inj (hf : HashFn α H) [DecidableEq H] (inj : Inj hf) (pr1 pr2 : List H)
+    (size : Nat) (mmrRoot : H) (first last : Nat) (v1 v2 : H) (u : Nat)
+    (h1 : validateAt hf pr1 size mmrRoot first last (.ok (v1, u)) = .ok ())
+    (h2 : validateAt hf pr2 size mmrRoot first last (.ok (v2, u)) = .ok ()) :
+    v1 = v2 ∧ pr1.take (consumed size first last u) = pr2.take (consumed size first last u) := by
+  unfold validateAt at h1 h2
+  simp only at h1 h2
+  obtain ⟨rest1, e1⟩ := proofValidate_ok hf _ _ _ _ _ _ _ h1
+  obtain ⟨rest2, e2⟩ := proofValidate_ok hf _ _ _ _ _ _ _ h2
+  exact (reconstructRoot_inj hf inj _ _ _ _ _ _ _ _ _ _ _ _ e1 e2).2.2.2 rfl
+
+theorem validateWithAt_inj (hf : HashFn α H) [DecidableEq H] (inj : Inj hf) (pr1 pr2 : List H)
+    (size : Nat) (mmrRoot : H) (first last : Nat) (v1 v2 : H) (u hlp : Nat) (other : H) (left : Bool)
+    (h1 : validateWithAt hf pr1 size mmrRoot first last (.ok (v1, u)) hlp other left = .ok ())
+    (h2 : validateWithAt hf pr2 size mmrRoot first last (.ok (v2, u)) hlp other left = .ok ()) :
+    v1 = v2 ∧ pr1.take (consumed size first last u) = pr2.take (consumed size first last u) := by
+  unfold validateWithAt at h1 h2
+  simp only at h1 h2
+  obtain ⟨r1, rest1, e1, m1⟩ := proofValidateWith_ok hf _ _ _ _ _ _ _ _ _ _ h1
+  obtain ⟨r2, rest2, e2, m2⟩ := proofValidateWith_ok hf _ _ _ _ _ _ _ _ _ _ h2
+  have hr : r1 = r2 := by
+    rw [← m2] at m1
+    cases left with
+    | true => simp only [if_true] at m1; exact (inj.node hlp _ _ _ _ m1).2
+    | false => simp only [Bool.false_eq_true, if_false] at m1; exact (inj.node hlp _ _ _ _ m1).1
+  exact (reconstructRoot_inj hf inj _ _ _ _ _ _ _ _ _ _ _ _ e1 e2).2.2.2 hr
+
+/-- `first_unpruned_parent` of a segment whose root is `some v` -/
+theorem fup_of_root_some (hf : HashFn α H) (s : Segment α H) (size : Nat) (bm : Option (Nat → Bool))
+    (v : H) (h : s.root hf size bm = .ok (some v)) :
+    s.firstUnprunedParent hf size bm = .ok (v, 1 + (s.id.posRange size).2) := by
+  unfold Segment.firstUnprunedParent
+  rw [h]
+  rfl
+
+/-- accepted ⇒ `root` did not fail -/
+theorem root_ok_of_fup_ok (hf : HashFn α H) (s : Segment α H) (size : Nat) (bm : Option (Nat → Bool))
+    (x : H × Nat) (h : s.firstUnprunedParent hf size bm = .ok x) :
+    ∃ o, s.root hf size bm = .ok o := by
+  unfold Segment.firstUnprunedParent at h
+  cases hr : s.root hf size bm with
+  | err e => rw [hr] at h; cases h
+  | panic => rw [hr] at h; cases h
+  | ok o => exact ⟨o, rfl⟩
+
+theorem fup_ok_of_validate (hf : HashFn α H) [DecidableEq H] (s : Segment α H) (size : Nat)
+    (bm : Option (Nat → Bool)) (mmrRoot : H) (h : s.validate hf size bm mmrRoot = .ok ()) :
+    ∃ x, s.firstUnprunedParent hf size bm = .ok x := by
+  unfold Segment.validate at h
+  cases hr : s.firstUnprunedParent hf size bm with
+  | err e => rw [hr] at h; cases h
+  | panic => rw [hr] at h; cases h
+  | ok o => exact ⟨o, rfl⟩
+
+theorem fup_ok_of_validateWith (hf : HashFn α H) [DecidableEq H] (s : Segment α H) (size : Nat)
+    (bm : Option (Nat → Bool)) (mmrRoot : H) (hlp : Nat) (other : H) (left : Bool)
+    (h : s.validateWith hf size bm mmrRoot hlp other left = .ok ()) :
+    ∃ x, s.firstUnprunedParent hf size bm = .ok x := by
+  unfold Segment.validateWith at h
+  cases hr : s.firstUnprunedParent hf size bm with
+  | err e => rw [hr] at h; cases h
+  | panic => rw [hr] at h; cases h
+  | ok o => exact ⟨o, rfl⟩
+
+/-- number of proof hashes `validate` consumes for a segment that has a root of its own -/
+def proofLen (id : Ident) (size : Nat) : Nat :=
+  consumed size (id.posRange size).1 (id.posRange size).2 (1 + (id.posRange size).2)
+
+theorem root_some_of_accepted (hf : HashFn α H) (inj : Inj hf) (s1 s2 : Segment α H)
+    (hid : s1.id = s2.id) (size : Nat) (bm : Option (Nat → Bool)) (wf : WellFormedRange s1.id size)
+    (v1 : H) (hnp : s1.root hf size bm = .ok (some v1)) (x : H × Nat)
+    (h2 : s2.firstUnprunedParent hf size bm = .ok x) :
+    ∃ v2, s2.root hf size bm = .ok (some v2) := by
+  obtain ⟨o2, hr2⟩ := root_ok_of_fup_ok hf s2 size bm x h2
+  have := (root_inj hf inj s1 s2 hid size bm wf _ _ hnp hr2).1
+  cases o2 with
+  | none => simp at this
+  | some v2 => exact ⟨v2, hr2⟩
+
+/-- **Injectivity of `Segment::validate`** (segment with a root of its own, i.e. not completely
+pruned): two accepted segments agree on everything read. -/
+theorem validate_inj (hf : HashFn α H) [DecidableEq H] (inj : Inj hf) (s1 s2 : Segment α H)
+    (hid : s1.id = s2.id) (size : Nat) (bm : Option (Nat → Bool)) (wf : WellFormedRange s1.id size)
+    (mmrRoot v1 : H) (hnp : s1.root hf size bm = .ok (some v1))
+    (h1 : s1.validate hf size bm mmrRoot = .ok ()) (h2 : s2.validate hf size bm mmrRoot = .ok ()) :
+    segReads hf s1 size bm = segReads hf s2 size bm ∧
+    s1.proof.take (proofLen s1.id size) = s2.proof.take (proofLen s1.id size) := by
+  obtain ⟨x2, hx2⟩ := fup_ok_of_validate hf s2 size bm mmrRoot h2
+  obtain ⟨v2, hr2⟩ := root_some_of_accepted hf inj s1 s2 hid size bm wf v1 hnp x2 hx2
+  have f1 := fup_of_root_some hf s1 size bm v1 hnp
+  have f2 := fup_of_root_some hf s2 size bm v2 hr2
+  unfold Segment.validate at h1 h2
+  rw [f1] at h1
+  rw [f2, ← hid] at h2
+  obtain ⟨hv, htake⟩ := validateAt_inj hf inj _ _ _ _ _ _ _ _ _ h1 h2
+  subst hv
+  exact ⟨(root_inj hf inj s1 s2 hid size bm wf _ _ hnp hr2).2 rfl, htake⟩
+
+/-- the same for `validate_with` (merged output root) -/
+theorem validateWith_inj (hf : HashFn α H) [DecidableEq H] (inj : Inj hf) (s1 s2 : Segment α H)
+    (hid : s1.id = s2.id) (size : Nat) (bm : Option (Nat → Bool)) (wf : WellFormedRange s1.id size)
+    (mmrRoot v1 : H) (hlp : Nat) (other : H) (left : Bool)
+    (hnp : s1.root hf size bm = .ok (some v1))
+    (h1 : s1.validateWith hf size bm mmrRoot hlp other left = .ok ())
+    (h2 : s2.validateWith hf size bm mmrRoot hlp other left = .ok ()) :
+    segReads hf s1 size bm = segReads hf s2 size bm ∧
+    s1.proof.take (proofLen s1.id size) = s2.proof.take (proofLen s1.id size) := by
+  obtain ⟨x2, hx2⟩ := fup_ok_of_validateWith hf s2 size bm mmrRoot hlp other left h2
+  obtain ⟨v2, hr2⟩ := root_some_of_accepted hf inj s1 s2 hid size bm wf v1 hnp x2 hx2
+  have f1 := fup_of_root_some hf s1 size bm v1 hnp
+  have f2 := fup_of_root_some hf s2 size bm v2 hr2
+  unfold Segment.validateWith at h1 h2
+  rw [f1] at h1
+  rw [f2, ← hid] at h2
+  obtain ⟨hv, htake⟩ := validateWithAt_inj hf inj _ _ _ _ _ _ _ _ _ _ _ _ h1 h2
+  subst hv
+  exact ⟨(root_inj hf inj s1 s2 hid size bm wf _ _ hnp hr2).2 rfl, htake⟩
+
+/-- completely pruned segments (no root of their own): if both carry their first unpruned parent
+at the same position, the two hashes and the consumed proof hashes are equal -/
+theorem validate_inj_pruned (hf : HashFn α H) [DecidableEq H] (inj : Inj hf) (s1 s2 : Segment α H)
+    (hid : s1.id = s2.id) (size : Nat) (bm : Option (Nat → Bool)) (mmrRoot h1' h2' : H) (u : Nat)
+    (f1 : s1.firstUnprunedParent hf size bm = .ok (h1', u))
+    (f2 : s2.firstUnprunedParent hf size bm = .ok (h2', u))
+    (h1 : s1.validate hf size bm mmrRoot = .ok ()) (h2 : s2.validate hf size bm mmrRoot = .ok ()) :
+    h1' = h2' ∧
+    s1.proof.take (consumed size (s1.id.posRange size).1 (s1.id.posRange size).2 u) =
+      s2.proof.take (consumed size (s1.id.posRange size).1 (s1.id.posRange size).2 u) := by
+  unfold Segment.validate at h1 h2
+  rw [f1] at h1
+  rw [f2, ← hid] at h2
+  exact validateAt_inj hf inj _ _ _ _ _ _ _ _ _ h1 h2
+
+/-! ### Required leaves are read; nothing panics -/
+
+theorem rootReads_required (hf : HashFn α H) (s : Segment α H) (bm : Option (Nat → Bool)) (size : Nat) :
+    ∀ (ps : List Nat) (st st' : RootSt α H), rootLoop hf s bm size st ps = .ok st' →
+      ∀ p ∈ ps, height p = 0 → required bm size p = true →
+        ∃ x, Ev.leaf p x ∈ rootReads hf s bm size st ps := by
+  intro ps
+  induction ps with
+  | nil => intro st st' _ p hp; cases hp
+  | cons q ps ih =>
+    intro st st' h p hp hh hr
+    simp only [rootLoop] at h
+    cases hs : rootStep hf s bm size st q with
+    | err e => simp only [hs] at h; cases h
+    | panic => simp only [hs] at h; cases h
+    | ok m =>
+      simp only [hs] at h
+      simp only [rootReads, hs]
+      rcases List.mem_cons.1 hp with rfl | hp'
+      · -- the head position itself
+        simp only [rootStep, hh, if_true, hr] at hs
+        cases hf' : iterFind st.2 p with
+        | none => simp only [hf'] at hs; cases hs
+        | some r =>
+          refine ⟨r.1, List.mem_append_left _ ?_⟩
+          simp [stepReads, hh, hr, hf']
+      · obtain ⟨x, hx⟩ := ih m st' h p hp' hh hr
+        exact ⟨x, List.mem_append_right _ hx⟩
+
+/-- what is read as leaf `p` comes from an entry `(p, x)` of the segment's leaf list -/
+theorem iterFind_mem {β : Type} : ∀ (l : List (Nat × β)) (p : Nat) (x : β) (rest : List (Nat × β)),
+    iterFind l p = some (x, rest) → (p, x) ∈ l ∧ ∃ pre, l = pre ++ (p, x) :: rest := by
+  intro l
+  induction l with
+  | nil => intro p x rest h; cases h
+  | cons a l ih =>
+    intro p x rest h
+    obtain ⟨q, y⟩ := a
+    simp only [iterFind] at h
+    by_cases hq : q = p
+    · simp only [hq, if_true, Option.some.injEq, Prod.mk.injEq] at h
+      obtain ⟨rfl, rfl⟩ := h
+      subst hq
+      exact ⟨List.mem_cons_self, [], rfl⟩
+    · simp only [hq, if_false] at h
+      obtain ⟨hm, pre, hpre⟩ := ih p x rest h
+      exact ⟨List.mem_cons_of_mem _ hm, (q, y) :: pre, by rw [hpre]; rfl⟩
+
+/-- `all entries are `some`' -/
+def allSome (stk : List (Option H)) : Prop := ∀ o ∈ stk, o ≠ none
+
+theorem rootStep_allSome (hf : HashFn α H) (s : Segment α H) (size p : Nat) (st st' : RootSt α H)
+    (h : rootStep hf s none size st p = .ok st') (ha : allSome st.1) : allSome st'.1 := by
+  obtain ⟨stk, it⟩ := st
+  simp only [rootStep] at h
+  by_cases hh : height p = 0
+  · simp only [hh, if_true, required] at h
+    cases hf' : iterFind it p with
+    | none => simp only [hf'] at h; cases h
+    | some r =>
+      simp only [hf', Res.ok.injEq] at h
+      subst h
+      intro o ho
+      rcases List.mem_cons.1 ho with rfl | ho'
+      · simp
+      · exact ha o ho'
+  · simp only [hh, if_false] at h
+    match stk with
+    | [] => cases h
+    | [_] => cases h
+    | r :: l :: rest =>
+      simp only at h
+      cases l with
+      | none => cases h
+      | some lh =>
+        cases r with
+        | none => cases h
+        | some rh =>
+          simp only [Res.ok.injEq] at h
+          subst h
+          intro o ho
+          rcases List.mem_cons.1 ho with rfl | ho'
+          · simp
+          · exact ha o (List.mem_cons_of_mem _ (List.mem_cons_of_mem _ ho'))
+
+theorem rootLoop_allSome (hf : HashFn α H) (s : Segment α H) (size : Nat) :
+    ∀ (ps : List Nat) (st st' : RootSt α H), rootLoop hf s none size st ps = .ok st' →
+      allSome st.1 → allSome st'.1 := by
+  intro ps
+  induction ps with
+  | nil => intro st st' h ha; simp only [rootLoop, Res.ok.injEq] at h; subst h; exact ha
+  | cons p ps ih =>
+    intro st st' h ha
+    simp only [rootLoop] at h
+    cases hs : rootStep hf s none size st p with
+    | err e => simp only [hs] at h; cases h
+    | panic => simp only [hs] at h; cases h
+    | ok m =>
+      simp only [hs] at h
+      exact ih m st' h (rootStep_allSome hf s size p st m hs ha)
+
+theorem rootStep_no_panic (hf : HashFn α H) (s : Segment α H) (bm : Option (Nat → Bool)) (size p : Nat)
+    (st : RootSt α H) : rootStep hf s bm size st p ≠ .panic := by
+  obtain ⟨stk, it⟩ := st
+  simp only [rootStep]
+  have hg : ∀ q, s.getHash q ≠ .panic := by
+    intro q; unfold Segment.getHash; split <;> simp
+  split
+  · split
+    · split <;> simp
+    · simp
+  · split
+    · split
+      · split
+        · simp
+        · simp
+        · split
+          · simp
+          · simp
+          · rename_i hp; exact absurd hp (hg _)
+        · split
+          · simp
+          · simp
+          · rename_i hp; exact absurd hp (hg _)
+      · split
+        · simp
+        · split <;> simp
+    · simp
+    · simp
+
+theorem rootLoop_no_panic (hf : HashFn α H) (s : Segment α H) (bm : Option (Nat → Bool)) (size : Nat) :
+    ∀ (ps : List Nat) (st : RootSt α H), rootLoop hf s bm size st ps ≠ .panic := by
+  intro ps
+  induction ps with
+  | nil => intro st; simp [rootLoop]
+  | cons p ps ih =>
+    intro st
+    simp only [rootLoop]
+    cases hs : rootStep hf s bm size st p with
+    | err e => simp
+    | panic => exact absurd hs (rootStep_no_panic hf s bm size p st)
+    | ok m => exact ih m
 
 end GV.Seg
